@@ -123,6 +123,10 @@ pub fn search(spec: &SeqSpec, workers: usize) -> ScenarioResult {
         // a level is never started if it cannot finish in reasonable time: the cap is reported, the levels below are complete
         let per_s = if transitions > 2000 { (transitions as f64 / t0.elapsed().as_secs_f64().max(0.05)).max(1000.0) } else { 20_000.0 };
         let remaining = (spec.time_cap_s - t0.elapsed().as_secs_f64()).max(0.0);
+        if d > 1 && items.len() > 12_000_000 {
+            capped = Some(format!("depth {} would need {} transitions (memory guard at 12M per level): stopped after completing depth {}", d, items.len(), d - 1));
+            break;
+        }
         if d > 1 && items.len() as f64 / per_s > remaining * 1.5 + 2.0 {
             capped = Some(format!("depth {} would need {} transitions (~{:.0}s at the measured rate, {:.0}s left): stopped after completing depth {}", d, items.len(), items.len() as f64 / per_s, remaining, d - 1));
             break;
@@ -317,7 +321,7 @@ pub fn seq_scenario(spec_of: impl Fn(&Ctx) -> SeqSpec + Send + Sync + Clone + 's
             if !ctx.quick() {
                 // the thorough tier goes as deep as its time share allows; a level that cannot finish is not started
                 spec.depth += 3;
-                spec.max_states = spec.max_states.max(20_000_000);
+                spec.max_states = spec.max_states.max(8_000_000);
             }
             search(&spec, ctx.workers)
         }),
